@@ -67,7 +67,7 @@ def check(tier):
         if os.environ.get("VERIF_TIMING"):
             print("timing: drivers built at %.0fs" % (time.time() - t0))
         rng = random.Random(vlib.seed() * 65537 + 18)
-        nscn = 10 if tier == "quick" else 80
+        nscn = 10 if tier == "quick" else 48
         scns = [suites.conc_scenario(i + 1, rng, rng.choice([2, 3, 4, 8, 16])) for i in range(nscn)]
         fails, races = [], []
         tot = {"events": 0, "conjuncts": 0, "states": 0, "transitions": 0}
@@ -95,7 +95,7 @@ def check(tier):
                                                             {"VERIF_TRACE": cj, "VERIF_ONCE_IDS": idf}, "2g")))
                 # seeded cooperative schedules: one processor, yields at pseudo-randomly chosen function entries of the library
                 warm = any(st["op"].startswith("Point.") and st["op"] != "Point.SetBytes" and st["op"] != "Point.SetExtendedCoordinates" for st in scn["prelude"])
-                for c in range(1, ((2 if warm else 4) if tier == "quick" else 9)):
+                for c in range(1, ((2 if warm else 4) if tier == "quick" else 7)):
                     rc, out, tj2, _ = run_scenario(drv, scn, work, "c%d" % c, 1, chaos=vlib.seed() * 1000 + scn["id"] * 16 + c)
                     if rc != 0:
                         raise Infra("scenario driver failed under chaos scheduling (rc=%d):\n%s" % (rc, out[-2000:]))
